@@ -106,7 +106,12 @@ mod verif_filter {
             if lt.is_some() { assert!(truthy(&lt) != truthy(&ge)); }
             if let (Value::Int64(a), Value::Int64(b)) = (&l, &r) { assert!(truthy(&lt) == (a < b) && truthy(&ge) == (a >= b)); }
             if let (Value::Float64(a), Value::Float64(b)) = (&l, &r) { assert!(truthy(&lt) == (a < b) && truthy(&ge) == (a >= b)); }
+            // x < y  iff  y > x, whatever the operand types (a mirrored mixed-type arm breaks this)
+            let gt_swapped = p.eval_binary_op(&r, BinaryFilterOp::Gt, &l);
+            assert!(truthy(&lt) == truthy(&gt_swapped), "x < y disagrees with y > x");
+            std::mem::forget(gt_swapped);
             kani::cover!(lt.is_some());
+            std::mem::forget(lt); std::mem::forget(ge);      // a symbolic Option<Value> must not reach Value's recursive drop glue
         } else if part == 1 {
             let gt = p.eval_binary_op(&l, BinaryFilterOp::Gt, &r);
             let le = p.eval_binary_op(&l, BinaryFilterOp::Le, &r);
@@ -114,13 +119,18 @@ mod verif_filter {
             if gt.is_some() { assert!(truthy(&gt) != truthy(&le)); }
             if let (Value::Int64(a), Value::Int64(b)) = (&l, &r) { assert!(truthy(&gt) == (a > b) && truthy(&le) == (a <= b)); }
             if let (Value::Float64(a), Value::Float64(b)) = (&l, &r) { assert!(truthy(&gt) == (a > b) && truthy(&le) == (a <= b)); }
+            let ge_swapped = p.eval_binary_op(&r, BinaryFilterOp::Ge, &l);
+            assert!(truthy(&le) == truthy(&ge_swapped), "x <= y disagrees with y >= x");
+            std::mem::forget(ge_swapped);
             kani::cover!(gt.is_some());
+            std::mem::forget(gt); std::mem::forget(le);
         } else {
             let eq = p.eval_binary_op(&l, BinaryFilterOp::Eq, &r);
             let ne = p.eval_binary_op(&l, BinaryFilterOp::Ne, &r);
             assert!(eq.is_some() && ne.is_some() && truthy(&eq) != truthy(&ne));
             if let (Value::Int64(a), Value::Int64(b)) = (&l, &r) { assert!(truthy(&eq) == (a == b)); }
             kani::cover!(truthy(&eq));
+            std::mem::forget(eq); std::mem::forget(ne);
         }
         std::mem::forget(l); std::mem::forget(r);
     }
